@@ -203,6 +203,8 @@ func (fi fileInfo) IsDir() bool        { return fi.dir }
 func (fi fileInfo) Sys() interface{}   { return nil }
 
 func Stat(name string) (FileInfo, error) {
+	simrt.RaceOff()
+	defer simrt.RaceOn()
 	p := clean(name)
 	disk.mu.Lock()
 	defer disk.mu.Unlock()
@@ -220,6 +222,8 @@ func parentExists(p string) bool {
 }
 
 func MkdirAll(path string, perm FileMode) error {
+	simrt.RaceOff()
+	defer simrt.RaceOn()
 	p := clean(path)
 	act, _ := simrt.IO("mkdir", p, 0, 0)
 	if act.Err != nil {
@@ -254,6 +258,8 @@ func MkdirAll(path string, perm FileMode) error {
 func Mkdir(path string, perm FileMode) error { return MkdirAll(path, perm) }
 
 func Remove(name string) error {
+	simrt.RaceOff()
+	defer simrt.RaceOn()
 	p := clean(name)
 	act, _ := simrt.IO("remove", p, 0, 0)
 	if act.Err != nil {
@@ -286,6 +292,8 @@ func Remove(name string) error {
 }
 
 func RemoveAll(path string) error {
+	simrt.RaceOff()
+	defer simrt.RaceOn()
 	p := clean(path)
 	act, _ := simrt.IO("removeall", p, 0, 0)
 	if act.Err != nil {
@@ -324,6 +332,8 @@ func Create(name string) (*File, error) {
 func Open(name string) (*File, error) { return OpenFile(name, O_RDONLY, 0) }
 
 func OpenFile(name string, flag int, perm FileMode) (*File, error) {
+	simrt.RaceOff()
+	defer simrt.RaceOn()
 	p := clean(name)
 	mutating := flag&(O_CREATE|O_TRUNC) != 0
 	var act simrt.IOAction
@@ -386,6 +396,8 @@ func (f *File) Name() string {
 }
 
 func (f *File) Close() error {
+	simrt.RaceOff()
+	defer simrt.RaceOn()
 	if f == nil {
 		return os.ErrInvalid
 	}
@@ -397,6 +409,8 @@ func (f *File) Close() error {
 }
 
 func (f *File) Seek(offset int64, whence int) (int64, error) {
+	simrt.RaceOff()
+	defer simrt.RaceOn()
 	if f == nil {
 		return 0, os.ErrInvalid
 	}
@@ -425,6 +439,8 @@ func (f *File) Seek(offset int64, whence int) (int64, error) {
 }
 
 func (f *File) Read(b []byte) (int, error) {
+	simrt.RaceOff()
+	defer simrt.RaceOn()
 	if f == nil {
 		return 0, os.ErrInvalid
 	}
@@ -448,6 +464,8 @@ func (f *File) Read(b []byte) (int, error) {
 }
 
 func (f *File) ReadAt(b []byte, off int64) (int, error) {
+	simrt.RaceOff()
+	defer simrt.RaceOn()
 	if f == nil {
 		return 0, os.ErrInvalid
 	}
@@ -488,6 +506,8 @@ func (f *File) writeAt(b []byte, off int64) {
 }
 
 func (f *File) Write(b []byte) (int, error) {
+	simrt.RaceOff()
+	defer simrt.RaceOn()
 	if f == nil {
 		return 0, os.ErrInvalid
 	}
@@ -528,6 +548,8 @@ func (f *File) Write(b []byte) (int, error) {
 func (f *File) WriteString(s string) (int, error) { return f.Write([]byte(s)) }
 
 func (f *File) Sync() error {
+	simrt.RaceOff()
+	defer simrt.RaceOn()
 	if f == nil {
 		return os.ErrInvalid
 	}
@@ -552,6 +574,8 @@ func (f *File) Sync() error {
 }
 
 func (f *File) Truncate(size int64) error {
+	simrt.RaceOff()
+	defer simrt.RaceOn()
 	if f == nil {
 		return os.ErrInvalid
 	}
@@ -581,6 +605,8 @@ func (f *File) Truncate(size int64) error {
 }
 
 func (f *File) Stat() (FileInfo, error) {
+	simrt.RaceOff()
+	defer simrt.RaceOn()
 	if f == nil {
 		return nil, os.ErrInvalid
 	}
